@@ -854,6 +854,9 @@ class CstStatementDeserializer:
         names = _RootNameCollector.collect(node)
         if bound_var is not None:
             names.discard(bound_var)
+        # The parameters of a lambda and the targets of a comprehension are bound by the
+        # statement itself (the exporter writes ``var_0 = lambda *args, **kwargs: 1``).
+        names -= _BlockBindingCollector.collect(node)
         if not names <= state.known:
             return Disposition.DROPPED_UNKNOWN_NAMES
 
